@@ -483,7 +483,7 @@ static std::unique_ptr<Built> buildImpl(const vj::Value& cfg, bool grouped, int 
          TypedArgBase* d = pairOn ? b->slots.back()->destPair("v" + std::to_string(i + 1), b->aux[i], static_cast<int>(a["pair"]["val"].num()))
                                   : b->slots.back()->dest("v" + std::to_string(i + 1));
          if (!d) throw std::logic_error("pair argument not supported by the driver for kind " + a["kind"].str());
-         TypedArgBase* t = h.addArgument(spec, d, a["desc"].kind == vj::Value::Arr ? a["desc"].bytes() : "D" + std::to_string(i + 1));
+         TypedArgBase* t = h.addArgument(spec, d, a["nodesc"].kind == vj::Value::Bool && a["nodesc"].boolean() ? std::string() : a["desc"].kind == vj::Value::Arr ? a["desc"].bytes() : "D" + std::to_string(i + 1));
          b->defineRes.push_back("ok");
          applyArgSettings(cfg, a, t);
       } catch (const std::exception& e) {
@@ -767,6 +767,7 @@ static void doHelpArg(const vj::Value& cfg, const vj::Value& act) {
          toks.push_back(v);
       }
    vj::Line().str("e", "HelpArg").raw("key", dump(act["key"])).str("out", outcome).raw("toks", intList(toks.begin(), toks.end()))
+      .boolean("header", out.find("Argument '") != std::string::npos && out.find("', usage:") != std::string::npos)
       .boolean("unknown", err.find("is unknown") != std::string::npos).emit();
 }
 
